@@ -349,3 +349,496 @@ Proof.
     rewrite nonzero_3d_l. reflexivity.
   - unfold nonzero. rewrite nonzero_nd_l. reflexivity.
 Qed.
+
+(* ------------------------------------------------------------------------ *)
+(* the Kronecker pattern as a set: positionwise definition                   *)
+(* ------------------------------------------------------------------------ *)
+Lemma product_In : forall {A : Type} (ls : list (list A)) (sel : list A),
+  In sel (product ls) <-> Forall2 (fun x l => In x l) sel ls.
+Proof.
+  induction ls as [|l ls IH]; intros sel; simpl.
+  - split. + intros [<-|[]]. constructor. + intros H; inversion H; auto.
+  - rewrite in_flat_map. split.
+    + intros (x & Hx & Hs). apply in_map_iff in Hs. destruct Hs as (s' & <- & Hs').
+      constructor; auto. apply IH; auto.
+    + intros H. inversion H; subst. exists x. split; auto.
+      apply in_map. apply IH; auto.
+Qed.
+
+Lemma sel_valid : forall bidx bs sel, wf_structure bs bidx ->
+  Forall2 (fun x l => In x l) sel bidx ->
+  valid_mi (map fst sel) (rowdims bs) /\ valid_mi (map snd sel) (coldims bs).
+Proof.
+  intros bidx bs sel Hwf. revert sel. unfold wf_structure in Hwf.
+  induction Hwf as [|b mn bidx bs Hb Hwf IH]; intros sel Hs; inversion Hs as [|x b' sel' l' Hx Hs']; subst; simpl.
+  - split; constructor.
+  - destruct (IH _ Hs') as [IH1 IH2]. unfold pat_in_block in Hb.
+    rewrite Forall_forall in Hb. specialize (Hb _ Hx).
+    split; constructor; auto; tauto.
+Qed.
+
+Lemma combine_fst_snd : forall {A B : Type} (l : list (A * B)), combine (map fst l) (map snd l) = l.
+Proof. induction l as [|[a b] l IH]; simpl; congruence. Qed.
+
+Lemma map_fst_combine : forall {A B : Type} (a : list A) (b : list B), length a = length b ->
+  map fst (combine a b) = a.
+Proof. induction a; destruct b; simpl; intros; try discriminate; auto. f_equal. auto. Qed.
+Lemma map_snd_combine : forall {A B : Type} (a : list A) (b : list B), length a = length b ->
+  map snd (combine a b) = b.
+Proof. induction a; destruct b; simpl; intros; try discriminate; auto. f_equal. auto. Qed.
+
+Lemma kron_pattern_mem_l : forall bs bidx I J,
+  wf_structure bs bidx -> dims_pos (rowdims bs) -> dims_pos (coldims bs) ->
+  (In (I, J) (kron_pattern bs bidx) <-> kron_nonzero bs bidx I J).
+Proof.
+  intros bs bidx I J Hwf Hr Hc. unfold kron_pattern, kron_nonzero, shape. simpl fst. simpl snd.
+  rewrite in_map_iff. split.
+  - intros (sel & He & Hs). apply product_In in Hs.
+    destruct (sel_valid _ _ _ Hwf Hs) as [V1 V2].
+    unfold entry_of in He. inversion He; subst I J.
+    split; [apply to_seq_range_l; auto|]. split; [apply to_seq_range_l; auto|].
+    rewrite !from_seq_to_seq_l by auto. rewrite combine_fst_snd. auto.
+  - intros (HI & HJ & HF).
+    exists (combine (from_seq I (rowdims bs)) (from_seq J (coldims bs))). split.
+    + unfold entry_of.
+      assert (length (from_seq I (rowdims bs)) = length (from_seq J (coldims bs))).
+      { rewrite !from_seq_length. unfold rowdims, coldims. rewrite !map_length. auto. }
+      rewrite map_fst_combine, map_snd_combine by auto.
+      rewrite !to_seq_from_seq_l by auto. reflexivity.
+    + apply product_In. auto.
+Qed.
+
+(* ------------------------------------------------------------------------ *)
+(* transposition                                                             *)
+(* ------------------------------------------------------------------------ *)
+Lemma product_map : forall {A B : Type} (f : A -> B) (ls : list (list A)),
+  product (map (map f) ls) = map (map f) (product ls).
+Proof.
+  induction ls as [|l ls IH]; simpl; auto. rewrite IH. clear IH.
+  induction l as [|a l IHl]; simpl; auto. rewrite map_app, IHl. f_equal.
+  rewrite !map_map. reflexivity.
+Qed.
+
+Lemma rowdims_transpose : forall bs, rowdims (transpose_bs bs) = coldims bs.
+Proof. intros. unfold rowdims, coldims, transpose_bs. rewrite map_map. reflexivity. Qed.
+Lemma coldims_transpose : forall bs, coldims (transpose_bs bs) = rowdims bs.
+Proof. intros. unfold rowdims, coldims, transpose_bs. rewrite map_map. reflexivity. Qed.
+
+Lemma transpose_pattern_l : forall bs bidx,
+  kron_pattern (transpose_bs bs) (transpose_bidx bidx) = map swap (kron_pattern bs bidx).
+Proof.
+  intros. unfold kron_pattern, transpose_bidx. rewrite product_map, !map_map.
+  apply map_ext. intros sel. unfold entry_of.
+  rewrite !rowdims_transpose, !coldims_transpose. reflexivity.
+Qed.
+
+Lemma transpose_involutive_l : forall bs bidx,
+  transpose_bs (transpose_bs bs) = bs /\ transpose_bidx (transpose_bidx bidx) = bidx.
+Proof.
+  intros. unfold transpose_bs, transpose_bidx. split.
+  - rewrite map_map. rewrite <- (map_id bs) at 2. apply map_ext. intros [a b]; reflexivity.
+  - rewrite map_map. rewrite <- (map_id bidx) at 2. apply map_ext. intros b.
+    rewrite map_map. rewrite <- (map_id b) at 2. apply map_ext. intros [x y]; reflexivity.
+Qed.
+
+(* ------------------------------------------------------------------------ *)
+(* per-row and per-column queries                                            *)
+(* ------------------------------------------------------------------------ *)
+Lemma filter_flat_map : forall {A B : Type} (p : B -> bool) (f : A -> list B) (l : list A),
+  filter p (flat_map f l) = flat_map (fun x => filter p (f x)) l.
+Proof. induction l; simpl; auto. rewrite filter_app, IHl. reflexivity. Qed.
+
+Lemma filter_map_comm : forall {A B : Type} (p : B -> bool) (f : A -> B) (l : list A),
+  filter p (map f l) = map f (filter (fun x => p (f x)) l).
+Proof. induction l; simpl; auto. destruct (p (f a)); simpl; rewrite IHl; reflexivity. Qed.
+
+Fixpoint all2 {A : Type} (ps : list (A -> bool)) (sel : list A) : bool :=
+  match ps, sel with
+  | p :: ps', x :: sel' => p x && all2 ps' sel'
+  | _, _ => true
+  end.
+
+Lemma product_filter : forall {A : Type} (ls : list (list A)) (ps : list (A -> bool)),
+  length ps = length ls ->
+  product (map (fun pl => filter (fst pl) (snd pl)) (combine ps ls)) = filter (all2 ps) (product ls).
+Proof.
+  induction ls as [|l ls IH]; intros ps Hl; destruct ps as [|p ps]; simpl in Hl; try discriminate.
+  - reflexivity.
+  - cbn [combine map product fst snd]. rewrite IH by lia. rewrite filter_flat_map.
+    clear IH.
+    assert (E : forall (L : list (list A)), filter (fun _ => false) L = []) by (induction L; auto).
+    induction l as [|a l IHl]; [reflexivity|].
+    cbn [filter flat_map]. rewrite filter_map_comm. cbn [all2].
+    destruct (p a) eqn:Epa; cbn [flat_map andb].
+    + rewrite IHl. reflexivity.
+    + rewrite IHl, E. reflexivity.
+Qed.
+
+Definition row_preds (ix : list Z) : list (Z * Z -> bool) := map (fun r e => fst e =? r) ix.
+
+Lemma inter_as_filter : forall (bidx : list pat) (ix : list Z),
+  map (fun bx => level_row_inter (fst bx) (snd bx)) (combine bidx ix)
+  = map (map snd) (map (fun pl => filter (fst pl) (snd pl)) (combine (row_preds ix) bidx)).
+Proof.
+  induction bidx as [|b bidx IH]; intros ix; destruct ix as [|r ix]; simpl; auto.
+  rewrite IH. reflexivity.
+Qed.
+
+Lemma all2_row_preds : forall ix sel, length sel = length ix ->
+  (all2 (row_preds ix) sel = true <-> map fst sel = ix).
+Proof.
+  induction ix as [|r ix IH]; intros sel Hl; destruct sel as [|e sel]; simpl in *; try discriminate.
+  - tauto.
+  - rewrite andb_true_iff, Z.eqb_eq, IH by lia. split.
+    + intros [-> ->]. reflexivity.
+    + intros H. inversion H. auto.
+Qed.
+
+Lemma Forall2_length' : forall {A B : Type} (R : A -> B -> Prop) l1 l2, Forall2 R l1 l2 -> length l1 = length l2.
+Proof. induction 1; simpl; auto. Qed.
+
+(* the columns reported for row r: exactly the entries of the pattern in row r, in pattern order *)
+Lemma rows_J_spec : forall bs bidx r,
+  wf_structure bs bidx -> dims_pos (rowdims bs) -> 0 <= r < fst (shape bs) ->
+  rows_J bs bidx r = map snd (filter (fun e => fst e =? r) (kron_pattern bs bidx)).
+Proof.
+  intros bs bidx r Hwf Hp Hr. unfold rows_J, raveled_cartesian_product, kron_pattern.
+  rewrite odo_enum_product_l. rewrite inter_as_filter, product_map.
+  assert (Hlen : length bidx = length bs) by (eapply Forall2_length'; eauto).
+  rewrite (@product_filter (Z * Z) bidx).
+  2:{ unfold row_preds. rewrite map_length, from_seq_length. unfold rowdims. rewrite map_length. symmetry. exact Hlen. }
+  rewrite filter_map_comm, !map_map.
+  rewrite (filter_ext_in (all2 (row_preds (from_seq r (rowdims bs))))
+                         (fun sel => fst (entry_of bs sel) =? r)).
+  - reflexivity.
+  - intros sel Hs. apply product_In in Hs.
+    destruct (sel_valid _ _ _ Hwf Hs) as [V1 _].
+    assert (Hl : length sel = length (from_seq r (rowdims bs))).
+    { rewrite from_seq_length. apply valid_mi_length in V1. rewrite map_length in V1. auto. }
+    unfold entry_of. simpl fst.
+    destruct (all2 (row_preds (from_seq r (rowdims bs))) sel) eqn:E.
+    + apply all2_row_preds in E; auto. rewrite E.
+      symmetry. apply Z.eqb_eq. apply to_seq_from_seq_l; auto.
+    + symmetry. apply Z.eqb_neq. intros Heq.
+      assert (map fst sel = from_seq r (rowdims bs)).
+      { rewrite <- Heq. symmetry. apply from_seq_to_seq_l; auto. }
+      apply all2_row_preds in H; auto. congruence.
+Qed.
+
+Lemma map_pair_filter_row : forall r (L : list (Z * Z)),
+  map (fun c => (r, c)) (map snd (filter (fun e => fst e =? r) L)) = filter (fun e => fst e =? r) L.
+Proof.
+  induction L as [|[a b] L IH]; simpl; auto.
+  destruct (a =? r) eqn:E; simpl; auto. apply Z.eqb_eq in E. subst. rewrite IH. reflexivity.
+Qed.
+
+Lemma rows_loop_spec : forall bs bidx rows k,
+  wf_structure bs bidx -> dims_pos (rowdims bs) ->
+  Forall (fun r => 0 <= r < fst (shape bs)) rows ->
+  map (fun t => (fst (fst t), snd (fst t))) (rows_loop bs bidx k rows)
+  = flat_map (fun r => filter (fun e => fst e =? r) (kron_pattern bs bidx)) rows.
+Proof.
+  intros bs bidx rows k Hwf Hp HF. revert k. induction HF as [|r rows Hr HF IH]; intros k; simpl; auto.
+  rewrite map_app, IH, map_map. simpl. f_equal.
+  rewrite rows_J_spec by auto. apply map_pair_filter_row.
+Qed.
+
+Lemma in_range_spec : forall n r, in_range n r = true <-> 0 <= r < n.
+Proof. intros. unfold in_range. rewrite andb_true_iff, Z.leb_le, Z.ltb_lt. tauto. Qed.
+
+Lemma rows_spec_l : forall bs bidx rows l,
+  wf_structure bs bidx -> dims_pos (rowdims bs) ->
+  nonzeros_for_rows bs bidx rows = Some l ->
+  map (fun t => (fst (fst t), snd (fst t))) l
+  = flat_map (fun r => filter (fun e => fst e =? r) (kron_pattern bs bidx)) rows.
+Proof.
+  intros bs bidx rows l Hwf Hp H. unfold nonzeros_for_rows in H.
+  destruct (forallb (in_range (fst (shape bs))) rows) eqn:E; [|discriminate].
+  inversion H; subst l. apply rows_loop_spec; auto.
+  rewrite forallb_forall in E. apply Forall_forall. intros r Hr. apply in_range_spec. auto.
+Qed.
+
+(* rows outside the matrix are refused, all others are answered *)
+Lemma rows_defined_l : forall bs bidx rows,
+  (exists l, nonzeros_for_rows bs bidx rows = Some l) <-> Forall (fun r => 0 <= r < fst (shape bs)) rows.
+Proof.
+  intros. unfold nonzeros_for_rows. rewrite Forall_forall. split.
+  - intros [l H]. destruct (forallb _ rows) eqn:E; [|discriminate].
+    rewrite forallb_forall in E. intros r Hr. apply in_range_spec. auto.
+  - intros H. replace (forallb (in_range (fst (shape bs))) rows) with true; eauto.
+    symmetry. apply forallb_forall. intros r Hr. apply in_range_spec. auto.
+Qed.
+
+Lemma wf_transpose : forall bs bidx, wf_structure bs bidx ->
+  wf_structure (transpose_bs bs) (transpose_bidx bidx).
+Proof.
+  unfold wf_structure, transpose_bs, transpose_bidx. induction 1; simpl; constructor; auto.
+  unfold pat_in_block in *. rewrite Forall_forall in *. intros e He.
+  apply in_map_iff in He. destruct He as (e' & <- & He'). specialize (H _ He').
+  destruct y; simpl in *. tauto.
+Qed.
+
+Lemma shape_transpose : forall bs, shape (transpose_bs bs) = swap (shape bs).
+Proof. intros. unfold shape, swap. rewrite rowdims_transpose, coldims_transpose. reflexivity. Qed.
+
+Lemma cols_spec_l : forall bs bidx cols l,
+  wf_structure bs bidx -> dims_pos (coldims bs) ->
+  nonzeros_for_columns bs bidx cols = Some l ->
+  l = flat_map (fun c => filter (fun e => snd e =? c) (kron_pattern bs bidx)) cols.
+Proof.
+  intros bs bidx cols l Hwf Hp H. unfold nonzeros_for_columns in H.
+  destruct (nonzeros_for_rows (transpose_bs bs) (transpose_bidx bidx) cols) as [l'|] eqn:E; [|discriminate].
+  inversion H; subst l. clear H.
+  apply rows_spec_l in E; [|apply wf_transpose; auto|rewrite rowdims_transpose; auto].
+  rewrite transpose_pattern_l in E.
+  replace (map (fun t : Z * Z * Z => (snd (fst t), fst (fst t))) l')
+    with (map swap (map (fun t : Z * Z * Z => (fst (fst t), snd (fst t))) l'))
+    by (rewrite map_map; reflexivity).
+  rewrite E. rewrite map_flat_map. apply flat_map_ext'. intros c _.
+  rewrite filter_map_comm, map_map.
+  rewrite (map_ext _ (fun x => x)) by (intros [a b]; reflexivity). rewrite map_id.
+  reflexivity.
+Qed.
+
+(* ------------------------------------------------------------------------ *)
+(* matrix-vector product                                                     *)
+(* ------------------------------------------------------------------------ *)
+Fixpoint row_sum (ts : list ((Z * Z) * Z)) (x : list Z) (r : Z) : Z :=
+  match ts with
+  | [] => 0
+  | ((i, j), v) :: ts' => (if i =? r then v * nth (Z.to_nat j) x 0 else 0) + row_sum ts' x r
+  end.
+
+Lemma add_at_spec : forall y I dd, (I < length y)%nat ->
+  exists y', add_at y I dd = Some y' /\ length y' = length y /\
+    forall k, nth k y' 0 = nth k y 0 + (if Nat.eqb k I then dd else 0).
+Proof.
+  induction y as [|a y IH]; intros I dd HI; simpl in HI; [lia|].
+  destruct I as [|I].
+  - simpl. eexists; split; [reflexivity|]. split; auto.
+    intros [|k]; simpl; lia.
+  - destruct (IH I dd ltac:(lia)) as (y' & E & L & N). simpl. rewrite E.
+    eexists; split; [reflexivity|]. split; [simpl; lia|].
+    intros [|k]; simpl; [lia|]. apply N.
+Qed.
+
+Lemma matvec_loop_spec : forall ts x y,
+  (forall r c v, In ((r, c), v) ts -> 0 <= r < Z.of_nat (length y)) ->
+  exists y', matvec_loop ts x y = Some y' /\ length y' = length y /\
+    forall k, nth k y' 0 = nth k y 0 + row_sum ts x (Z.of_nat k).
+Proof.
+  induction ts as [|[[i j] v] ts IH]; intros x y H.
+  - simpl. exists y. split; auto. split; auto. intros; lia.
+  - assert (Hi : 0 <= i < Z.of_nat (length y)) by (eapply H; left; reflexivity).
+    destruct (add_at_spec y (Z.to_nat i) (v * nth (Z.to_nat j) x 0) ltac:(lia)) as (y1 & E1 & L1 & N1).
+    destruct (IH x y1) as (y' & E & L & N).
+    { intros r c w Hin. rewrite L1. eapply H. right. eauto. }
+    simpl. rewrite E1. exists y'. split; auto. split; [lia|].
+    intros k. rewrite N, N1.
+    replace (Nat.eqb k (Z.to_nat i)) with (i =? Z.of_nat k); [lia|].
+    destruct (Z.eqb_spec i (Z.of_nat k)); symmetry.
+    + apply Nat.eqb_eq. lia.
+    + apply Nat.eqb_neq. lia.
+Qed.
+
+Lemma sum_upto_add : forall n f g, sum_upto n (fun c => f c + g c) = sum_upto n f + sum_upto n g.
+Proof. induction n; simpl; intros; auto. rewrite IHn. ring. Qed.
+
+Lemma sum_upto_zero : forall n, sum_upto n (fun _ => 0) = 0.
+Proof. induction n; simpl; lia. Qed.
+
+Lemma sum_upto_ext : forall n f g, (forall c, 0 <= c < Z.of_nat n -> f c = g c) -> sum_upto n f = sum_upto n g.
+Proof.
+  induction n; simpl; intros; auto. rewrite (IHn f g), H; auto; try lia.
+  intros; apply H; lia.
+Qed.
+
+Lemma sum_upto_delta : forall n j g,
+  sum_upto n (fun c => if j =? c then g c else 0)
+  = if (0 <=? j) && (j <? Z.of_nat n) then g j else 0.
+Proof.
+  induction n as [|n IH]; intros j g.
+  - simpl. destruct (0 <=? j) eqn:A, (j <? 0) eqn:B; simpl; auto. lia.
+  - cbn [sum_upto]. rewrite IH.
+    destruct (Z.eqb_spec j (Z.of_nat n)).
+    + subst j. replace (Z.of_nat n <? Z.of_nat n) with false by (symmetry; apply Z.ltb_ge; lia).
+      replace (Z.of_nat n <? Z.of_nat (S n)) with true by (symmetry; apply Z.ltb_lt; lia).
+      replace (0 <=? Z.of_nat n) with true by (symmetry; apply Z.leb_le; lia). simpl. lia.
+    + replace (j <? Z.of_nat (S n)) with (j <? Z.of_nat n); [lia|].
+      destruct (Z.ltb_spec j (Z.of_nat n)), (Z.ltb_spec j (Z.of_nat (S n))); auto; lia.
+Qed.
+
+(* the loop `y[I] += X * x[J]` computes the dense product row by row *)
+Lemma row_sum_dense : forall ts x N r,
+  (forall i j v, In ((i, j), v) ts -> 0 <= j < Z.of_nat N) ->
+  row_sum ts x r = dense_matvec ts N x r.
+Proof.
+  induction ts as [|[[i j] v] ts IH]; intros x N r H; unfold dense_matvec in *.
+  - simpl. rewrite sum_upto_zero. reflexivity.
+  - cbn [row_sum dense_entry].
+    rewrite (sum_upto_ext N _ (fun c => (if j =? c then (if i =? r then v * nth (Z.to_nat c) x 0 else 0) else 0)
+                                       + dense_entry ts r c * nth (Z.to_nat c) x 0)).
+    2:{ intros c Hc. destruct (i =? r), (j =? c); simpl; ring. }
+    rewrite sum_upto_add, sum_upto_delta. rewrite <- (IH x N r).
+    2:{ intros; eapply H; right; eauto. }
+    assert (Hj : 0 <= j < Z.of_nat N) by (eapply H; left; reflexivity).
+    replace ((0 <=? j) && (j <? Z.of_nat N)) with true; [reflexivity|].
+    symmetry. apply andb_true_iff. rewrite Z.leb_le, Z.ltb_lt. lia.
+Qed.
+
+Lemma kron_pattern_range : forall bs bidx e, wf_structure bs bidx ->
+  In e (kron_pattern bs bidx) -> 0 <= fst e < fst (shape bs) /\ 0 <= snd e < snd (shape bs).
+Proof.
+  intros bs bidx e Hwf He. unfold kron_pattern in He. apply in_map_iff in He.
+  destruct He as (sel & <- & Hs). apply product_In in Hs.
+  destruct (sel_valid _ _ _ Hwf Hs) as [V1 V2]. unfold entry_of, shape. simpl.
+  split; apply to_seq_range_l; auto.
+Qed.
+
+Lemma nth_zeros : forall n k, nth k (zeros n) 0 = 0.
+Proof. intros. unfold zeros. generalize (Z.to_nat n). intros m. revert k. induction m; destruct k; simpl; auto. Qed.
+
+(* MLMatrix.dot = dense matrix times vector, for every number of levels, rectangular blocks *)
+Lemma matvec_spec_l : forall bs bidx data x,
+  wf_structure bs bidx -> length bs = length bidx -> 0 <= fst (shape bs) -> 0 <= snd (shape bs) ->
+  exists y, matvec bs bidx data x = Some y /\
+    Z.of_nat (length y) = fst (shape bs) /\
+    forall r, 0 <= r < fst (shape bs) ->
+      nth (Z.to_nat r) y 0 = dense_matvec (triples bs bidx data) (Z.to_nat (snd (shape bs))) x r.
+Proof.
+  intros bs bidx data x Hwf Hl HM HN. unfold matvec.
+  assert (Hts : forall i j v, In ((i, j), v) (triples bs bidx data) ->
+                 0 <= i < fst (shape bs) /\ 0 <= j < snd (shape bs)).
+  { intros i j v Hin. unfold triples in Hin.
+    rewrite (nonzero_spec_l bs bidx false Hl) in Hin by discriminate.
+    rewrite keep_false in Hin. apply in_combine_l in Hin.
+    apply (kron_pattern_range bs bidx (i, j) Hwf Hin). }
+  assert (Hz : length (zeros (fst (shape bs))) = Z.to_nat (fst (shape bs))) by (unfold zeros; apply repeat_length).
+  destruct (matvec_loop_spec (triples bs bidx data) x (zeros (fst (shape bs)))) as (y & E & L & N).
+  { intros r c v Hin. rewrite Hz. destruct (Hts _ _ _ Hin). lia. }
+  exists y. split; auto. split; [rewrite L, Hz; lia|].
+  intros r Hr. rewrite N, nth_zeros. rewrite Z2Nat.id by lia. rewrite Z.add_0_l.
+  apply row_sum_dense. intros i j v Hin. destruct (Hts _ _ _ Hin). lia.
+Qed.
+
+(* ------------------------------------------------------------------------ *)
+(* sequential <-> multilevel <-> reordered numbering                         *)
+(* ------------------------------------------------------------------------ *)
+Lemma rfm_zip3 : forall bs I J ii jj,
+  valid_mi I (rowdims bs) -> valid_mi J (coldims bs) ->
+  rfm_acc ii jj (zip3 I J bs) bs = (to_seq_acc ii I (rowdims bs), to_seq_acc jj J (coldims bs)).
+Proof.
+  induction bs as [|[m n] bs IH]; intros I J ii jj HI HJ; inversion HI; inversion HJ; subst; simpl.
+  - reflexivity.
+  - unfold to_seq. simpl.
+    replace ((0 * m + x) * n + x0) with (x * n + x0) by ring.
+    rewrite Z.div_add_l by lia. rewrite Z.div_small by lia.
+    rewrite Z.add_comm with (n := x * n), Z.mod_add by lia. rewrite Z.mod_small by lia.
+    rewrite Z.add_0_r. apply IH; auto.
+Qed.
+
+Lemma reindex_multilevel_roundtrip_l : forall bs i j,
+  dims_pos (rowdims bs) -> dims_pos (coldims bs) ->
+  0 <= i < fst (shape bs) -> 0 <= j < snd (shape bs) ->
+  reindex_from_multilevel (reindex_to_multilevel i j bs) bs = (i, j).
+Proof.
+  intros bs i j Hr Hc Hi Hj. unfold reindex_from_multilevel, reindex_to_multilevel.
+  rewrite rfm_zip3 by (apply from_seq_valid_l; auto).
+  fold (to_seq (from_seq i (rowdims bs)) (rowdims bs)).
+  fold (to_seq (from_seq j (coldims bs)) (coldims bs)).
+  rewrite !to_seq_from_seq_l; auto.
+Qed.
+
+(* a valid multilevel index: component k addresses an entry of the m_k x n_k block *)
+Definition valid_ml (M : list Z) (bs : list (Z * Z)) : Prop :=
+  Forall2 (fun mk mn => 0 <= mk < fst mn * snd mn /\ 0 < snd mn) M bs.
+
+Fixpoint quots (M : list Z) (bs : list (Z * Z)) : list Z :=
+  match M, bs with mk :: M', (m, n) :: bs' => mk / n :: quots M' bs' | _, _ => [] end.
+Fixpoint rems (M : list Z) (bs : list (Z * Z)) : list Z :=
+  match M, bs with mk :: M', (m, n) :: bs' => mk mod n :: rems M' bs' | _, _ => [] end.
+
+Lemma rfm_as_to_seq : forall bs M ii jj, length M = length bs ->
+  rfm_acc ii jj M bs = (to_seq_acc ii (quots M bs) (rowdims bs), to_seq_acc jj (rems M bs) (coldims bs)).
+Proof.
+  induction bs as [|[m n] bs IH]; intros M ii jj Hl; destruct M as [|mk M]; simpl in *; try discriminate; auto.
+Qed.
+
+Lemma quots_rems_valid : forall M bs, valid_ml M bs ->
+  valid_mi (quots M bs) (rowdims bs) /\ valid_mi (rems M bs) (coldims bs) /\ zip3 (quots M bs) (rems M bs) bs = M.
+Proof.
+  induction 1 as [|mk [m n] M bs [Hk Hn] HF IH]; simpl in *.
+  - repeat split; constructor.
+  - destruct IH as (IH1 & IH2 & IH3). repeat split.
+    + constructor; auto. split. apply Z.div_pos; lia.
+      apply Z.div_lt_upper_bound; lia.
+    + constructor; auto. apply Z.mod_pos_bound; lia.
+    + rewrite IH3. f_equal. unfold to_seq; simpl.
+      pose proof (Z.div_mod mk n ltac:(lia)). lia.
+Qed.
+
+Lemma reindex_multilevel_roundtrip2_l : forall bs M, valid_ml M bs ->
+  let ij := reindex_from_multilevel M bs in
+  reindex_to_multilevel (fst ij) (snd ij) bs = M
+  /\ 0 <= fst ij < fst (shape bs) /\ 0 <= snd ij < snd (shape bs).
+Proof.
+  intros bs M HM. destruct (quots_rems_valid M bs HM) as (V1 & V2 & Z3).
+  cbv zeta. unfold reindex_from_multilevel, reindex_to_multilevel.
+  rewrite rfm_as_to_seq by (eapply Forall2_length'; eauto). simpl fst. simpl snd.
+  fold (to_seq (quots M bs) (rowdims bs)). fold (to_seq (rems M bs) (coldims bs)).
+  rewrite !from_seq_to_seq_l by auto. split; auto.
+  unfold shape; simpl. split; apply to_seq_range_l; auto.
+Qed.
+
+(* the two-level routine is the two-level case of the multilevel one *)
+Lemma reindex_from_reordered_l : forall i j m1 n1 m2 n2,
+  reindex_from_reordered i j m1 n1 m2 n2 = reindex_from_multilevel [i; j] [(m1, n1); (m2, n2)].
+Proof.
+  intros. unfold reindex_from_reordered, reindex_from_multilevel. simpl. f_equal.
+Qed.
+
+(* ------------------------------------------------------------------------ *)
+(* compute_sparsity_ij: every reported pair has overlapping supports         *)
+(* ------------------------------------------------------------------------ *)
+Lemma do_intersect_overlap : forall a b, do_intersect a b = true <-> overlap a b.
+Proof. intros. unfold do_intersect, overlap. rewrite Z.gtb_lt. tauto. Qed.
+
+Lemma nth_error_skipn' : forall {A : Type} (l : list A) j k, nth_error (skipn j l) k = nth_error l (j + k).
+Proof.
+  induction l; intros j k; destruct j; simpl; auto. destruct k; auto.
+Qed.
+
+Lemma while_sound : forall s2 i rest j a b,
+  In (a, b) (while_intersect s2 i j rest) ->
+  a = i /\ exists k s1, b = j + Z.of_nat k /\ nth_error rest k = Some s1 /\ do_intersect s2 s1 = true.
+Proof.
+  induction rest as [|s rest IH]; intros j a b H; simpl in H; [tauto|].
+  destruct (do_intersect s2 s) eqn:E; [|destruct H].
+  destruct H as [H|H].
+  - inversion H; subst. split; auto. exists O, s. simpl. repeat split; auto. lia.
+  - destruct (IH _ _ _ H) as (-> & k & s1 & -> & Hn & Hd). split; auto.
+    exists (S k), s1. simpl. repeat split; auto. lia.
+Qed.
+
+Lemma sparsity_sound_l : forall supp1 supp2 a b,
+  In (a, b) (compute_sparsity_ij supp1 supp2) ->
+  exists s2 s1, 0 <= a /\ 0 <= b /\
+    nth_error supp2 (Z.to_nat a) = Some s2 /\ nth_error supp1 (Z.to_nat b) = Some s1 /\ overlap s2 s1.
+Proof.
+  intros supp1 supp2 a b. unfold compute_sparsity_ij.
+  assert (G : forall supp2 i, 0 <= i -> In (a, b) (sparsity_loop supp1 i supp2) ->
+     exists s2 s1, 0 <= b /\ i <= a /\
+       nth_error supp2 (Z.to_nat (a - i)) = Some s2 /\ nth_error supp1 (Z.to_nat b) = Some s1 /\ overlap s2 s1).
+  { clear supp2. induction supp2 as [|s supp2 IH]; intros i Hi H; simpl in H; [tauto|].
+    apply in_app_or in H. destruct H as [H|H].
+    - apply while_sound in H. destruct H as (-> & k & s1 & -> & Hn & Hd).
+      rewrite nth_error_skipn' in Hn.
+      exists s, s1. split; [lia|]. split; [lia|]. rewrite Z.sub_diag. simpl. split; auto.
+      split; [|apply do_intersect_overlap; auto].
+      rewrite <- Hn. f_equal. lia.
+    - destruct (IH (i + 1) ltac:(lia) H) as (s2 & s1 & Hb & Ha & H2 & H1 & Ho).
+      exists s2, s1. repeat split; auto; try lia.
+      replace (Z.to_nat (a - i)) with (S (Z.to_nat (a - (i + 1)))) by lia. simpl. auto. }
+  intros H. destruct (G supp2 0 ltac:(lia) H) as (s2 & s1 & Hb & Ha & H2 & H1 & Ho).
+  rewrite Z.sub_0_r in H2. exists s2, s1. repeat split; auto.
+Qed.
